@@ -175,7 +175,8 @@ func pkgFunc(info *types.Info, e ast.Expr) (string, string, bool) {
 
 var printToFprint = map[string]string{"Print": "Fprint", "Println": "Fprintln", "Printf": "Fprintf"}
 var scanToFscan = map[string]string{"Scan": "Fscan", "Scanln": "Fscanln", "Scanf": "Fscanf"}
-var osVars = map[string]string{"Stdout": "Stdout", "Stderr": "Stderr", "Stdin": "Stdin", "Args": "Args"}
+var osVars = map[string]string{"Stdout": "Stdout", "Stderr": "Stderr", "Stdin": "Stdin", "Args": "Args",
+	"File": "OSFile"} // (the type os.File: the simulated streams and files are values of verifsimrt.OSFile)
 var osFuncs = map[string]string{
 	"Exit": "Exit", "ReadFile": "ReadFile", "Open": "Open", "Stat": "Stat", "Lstat": "Lstat",
 	"Getpid": "Getpid", "Getppid": "Getppid", "Hostname": "Hostname",
